@@ -160,6 +160,9 @@ def run(ctx):
         for i in range(n):
             name = "p{}".format(i % 50)
             prose, doc_class = g.prose(name)
+            if i % 7 == 3:
+                # very short descriptions (the whole line is shorter than the longest announcement phrase)
+                prose, doc_class = ctx.rng.choice(["x", "On.", "Rate", "lr", "n."]), "very_short"
             typ, tc, value, dc = g.typ_and_default(name)
             if value is IRGen.MISSING:
                 continue
